@@ -246,3 +246,27 @@ func ZZC07Nested(n int) {
 	got, ok := o.params.Get("id")
 	zzv.Assert(o.id == 1 && ok && got == v && o.params.Count() == 1, "nested:outer-request-does-not-see-exactly-its-own-parameters")
 }
+
+// ZZC07Wide(n): a request that captures more parameters than a pooled context may keep (the
+// release threshold), then a request with a symbolic path: it must be served with exactly its own parameters.
+func ZZC07Wide(n int) {
+	r := zzNewRouter("w")
+	pat, path := "", ""
+	nparams := 30 + zzv.Choice("extra", 3)
+	for i := 0; i < nparams; i++ {
+		name := "p" + string(rune('a'+i/10)) + string(rune('0'+i%10))
+		pat += "/{" + name + "}"
+		path += "/" + string(rune('0'+i%10))
+	}
+	r.Handle(pat+"/end", &hnd{id: 1}, nil, "GET")
+	r.Handle("/u/{id}", &hnd{id: 2}, nil, "GET")
+	o, _ := zzServe(r, zzReq("GET", path+"/end"))
+	zzv.Assert(o.id == 1 && o.params.Count() >= 30, "wide:route-with-many-parameters-not-served")
+	p2 := "/u/" + zzv.Bytes("v", n)
+	var o2 *zzObs
+	pn, _ := zzGuard(func() { o2, _ = zzServe(r, zzReq("GET", p2)) })
+	zzv.Cover("after-a-wide-request")
+	zzv.Assert(!pn, "wide:request-after-a-wide-one-panics")
+	zzv.Assert(o2.id == 2, "wide:request-after-a-wide-one-not-served")
+	zzCheckRoute("wide", o2.pattern, p2, o2.params)
+}
